@@ -3748,6 +3748,12 @@ class CaseNode(Node):
 
             # check if we need else (is this a finishing state)
             if converted_states[processing] in new_dfa.accepting_states:
+                # Whatever follows the case is joined onto a finishing state later, so it normally gets no error transition.
+                # If it carries a wildcard move (Else, from an inverted set that can continue), though, the symbols that no
+                # label accepts would be swallowed by that move instead of ending the label: they have to leave explicitly.
+                if (actual_else and DFTransition.Else not in actual_else and
+                        any(DFTransition.Else in t.on_values for t in converted_states[processing].transitions)):
+                    converted_states[processing].transition(DFTransition(list(actual_else)).to(error_handling_state).fallthrough().handles_else(), allow_replace=True)
                 continue
 
             if DFTransition.Else in actual_else:
